@@ -56,6 +56,9 @@ const (
 
 func operandText(n *xnode) string {
 	if n.kind == xLit {
+		if strings.ContainsAny(n.src, "([.") && !strings.HasPrefix(n.src, "\"") && n.src != "2.5" {
+			return "" // composite operand: the detail text is not compared
+		}
 		if s, ok := n.val.(string); ok && !n.isVar {
 			if strings.Contains(n.src, "{{") {
 				return "" // interpolating literal: the detail is not compared
